@@ -252,6 +252,31 @@ func main() {
 		var c Case
 		r.LoadReplay(&c)
 		st := &stats{outcomes: map[string]int64{}}
+		if len(c.Steps) > 0 {
+			fmt.Printf("replay of a history of %d steps (mirror=%v)\n", len(c.Steps), c.Mirror)
+			for i, s := range c.Steps {
+				e := effective(s)
+				rf := reference(e.Opts)
+				fmt.Printf("  step %d: disk=%+v via=%s opts=%+v\n    reference for what is on disk now: acceptable certificates=%v error allowed=%v roots must=%s may=%s\n", i+1, s.Disk, s.Via, s.Opts, rf.acceptable, rf.errAllowed, set(rf.rootMust), set(rf.rootMay))
+			}
+			fs := checkHistory(c, st)
+			for _, f := range fs {
+				fmt.Printf("  class=%q %s\n", f.class, f.what)
+				r.Fail(f.class, f.what, f.c)
+			}
+			if len(fs) == 0 {
+				fmt.Println("  oracle satisfied at every call")
+			}
+			for k, v := range st.outcomes {
+				fmt.Printf("  outcome %s x%d\n", k, v)
+				r.Outcome(k, v)
+			}
+			r.Eval(st.evals)
+			r.Nontrivial(st.nontrivial)
+			r.Sample(c)
+			M.cleanup()
+			r.Finish("replay of one history", false)
+		}
 		rf := reference(c.Opts)
 		fmt.Printf("replay %+v\n  reference: certificate supplied=%v acceptable=%v error allowed=%v (%s) roots: slot=%v must=%s may=%s skip allowed=%v\n",
 			c, rf.certSupplied, rf.acceptable, rf.errAllowed, rf.errWhy, rf.rootSlot, set(rf.rootMust), set(rf.rootMay), rf.skipAllowed)
@@ -476,6 +501,91 @@ func main() {
 		unreproduced += st.unreproduced
 		mu.Unlock()
 	})
+	// ---- history dimension
+	var histSeqs, histCalls int64
+	if !restricted || strings.Contains(","+os.Getenv("C18_SWEEPS")+",", ",H,") {
+		// (1) order reversal: one list of colliding cases forward and backward, sequentially
+		ml := mirrorList(r.Thorough())
+		{
+			st := &stats{outcomes: map[string]int64{}}
+			mc := Case{Steps: ml, Mirror: true}
+			for _, f := range checkHistory(mc, st) {
+				r.Fail(f.class, f.what, f.c)
+			}
+			r.Eval(st.evals)
+			r.Nontrivial(st.nontrivial)
+			for k, v := range st.outcomes {
+				r.Outcome(k, v)
+			}
+			histSeqs++
+			histCalls += st.evals
+		}
+		r.Set("history_order_reversal", map[string]int{"list_length": len(ml), "calls": 2 * len(ml)})
+		// (2) every ordered tuple (with repetition) of 2..depth steps of each family's alphabet
+		fams := histFamilies(r.Thorough())
+		type hshard struct {
+			f    *histFamily
+			pre  []int // first len(pre) steps fixed, the last one varies inside the shard
+			last bool
+		}
+		var hs []hshard
+		famInfo := map[string]any{}
+		for fi := range fams {
+			f := &fams[fi]
+			n := len(f.alphabet)
+			total := 0
+			for i := 0; i < n; i++ {
+				hs = append(hs, hshard{f: f, pre: []int{i}})
+				total += n
+				if f.depth >= 3 {
+					for j := 0; j < n; j++ {
+						hs = append(hs, hshard{f: f, pre: []int{i, j}})
+						total += n
+					}
+				}
+			}
+			famInfo[f.name] = map[string]any{"step_alphabet": n, "max_length": f.depth, "sequences": total, "scenarios_on_last_call_of_pairs": f.scenarios}
+		}
+		r.Set("history_families", famInfo)
+		r.Set("history_step_alphabets", "H-CA: CA path content {A,B,(AB),garbage,absent} x options {CA=@, CA=@+pool P, CA=@+LoadedCA C, no roots} x entry point; H-ID: certificate path {R1,E1,garbage,absent} x key path {kR1,kE1,kE2,(garbage),absent} x options {Certificate=@,Key=@,CA=A} x entry point; H-X: CA {A,B,absent} x certificate {R1,E1,absent} x key {kR1,kE1,absent} x 2 option sets x entry point (pairs only); '@' = the sequence's own path, content rewritten in place or removed before each call")
+		var hSamples atomic.Int32
+		enum.Parallel(len(hs), r.OutOfTime, func(i int) {
+			sh := hs[(i+rot)%len(hs)]
+			st := &stats{outcomes: map[string]int64{}}
+			var seqs int64
+			for k := range sh.f.alphabet {
+				steps := make([]Step, 0, len(sh.pre)+1)
+				for _, p := range sh.pre {
+					steps = append(steps, sh.f.alphabet[p])
+				}
+				lastStep := sh.f.alphabet[k]
+				if len(sh.pre) == 1 {
+					lastStep.Scenarios = sh.f.scenarios
+				}
+				steps = append(steps, lastStep)
+				c := Case{Steps: steps}
+				for _, f := range checkHistory(c, st) {
+					r.Fail(f.class, f.what, f.c)
+				}
+				seqs++
+				if (i*31+k)%997 == int(r.Seed%997+997)%997 && hSamples.Add(1) <= 3 {
+					r.Sample(c)
+				}
+			}
+			r.Eval(st.evals)
+			r.Nontrivial(st.nontrivial)
+			for k, v := range st.outcomes {
+				r.Outcome(k, v)
+			}
+			mu.Lock()
+			handshakes += st.handshakes
+			histSeqs += seqs
+			histCalls += st.evals
+			mu.Unlock()
+		})
+	}
+	r.Set("history_sequences", histSeqs)
+	r.Set("history_calls", histCalls)
 	r.Set("handshakes", handshakes)
 	r.Set("behavioural_failures_not_reproduced_3_of_3", unreproduced)
 	if unreproduced > 0 {
@@ -488,7 +598,7 @@ func main() {
 		"http.Transport semantics are emulated for tls.Client handshakes by cloning the returned configuration and defaulting ServerName to the dialled host; the HTTP mode uses the returned transport itself",
 	)
 	M.cleanup()
-	r.Finish("sweep A: full product certificate file x key file x loaded certificate x loaded key x CA file x loaded CA x pool x server name x insecure x callback x tickets x cache (x entry point: quick = TLSClientAuth and TLSClient over everything; thorough = TLSClientAuth over everything, TLSTransport and TLSClient over the full product restricted to the quick identity alphabet), one call of the real entry point each, every field clause judged; sweeps B1/B2: the stated sub-products x server scenarios, a fresh call of the entry point plus one real TLS handshake over a buffered in-memory pipe against an in-process tls.Server each (through tls.Client on the returned configuration, or through http.Client.Do / RoundTrip of the returned object). evaluations = calls of TLSClientAuth/TLSTransport/TLSClient. non-trivial = first call of a case that returned a configuration (all field clauses evaluated) or returned an error where the reference demands one (certificate supplied, no usable pair); cases are distinct by construction (the enumerators never repeat an (options, entry point, mode) tuple within a sweep)", !restricted)
+	r.Finish("sweep A: full product certificate file x key file x loaded certificate x loaded key x CA file x loaded CA x pool x server name x insecure x callback x tickets x cache (x entry point: quick = TLSClientAuth and TLSClient over everything; thorough = TLSClientAuth over everything, TLSTransport and TLSClient over the full product restricted to the quick identity alphabet), one call of the real entry point each, every field clause judged; sweeps B1/B2: the stated sub-products x server scenarios, a fresh call of the entry point plus one real TLS handshake over a buffered in-memory pipe against an in-process tls.Server each (through tls.Client on the returned configuration, or through http.Client.Do / RoundTrip of the returned object). evaluations = calls of TLSClientAuth/TLSTransport/TLSClient. non-trivial = first call of a case that returned a configuration (all field clauses evaluated) or returned an error where the reference demands one (certificate supplied, no usable pair); cases are distinct by construction (the enumerators never repeat an (options, entry point, mode) tuple within a sweep). history sweeps H-CA/H-ID/H-X: every ordered tuple with repetition of 2..3 (H-X: 2) steps of the stated step alphabets, executed as consecutive calls in one process on paths private to the sequence whose content is rewritten in place, made garbage or removed before each call; every call is judged with the per-call oracle for the material on disk at that moment, configurations returned earlier are re-judged after every later call, pairs additionally run handshakes on the last call; order reversal: one list of colliding cases over static files run forward and backward in one history, same result per case demanded", !restricted)
 }
 
 type mode struct {
